@@ -9,6 +9,7 @@
 import EvalFilter.Proofs.VMFrame
 import EvalFilter.Props.Tables
 import EvalFilter.Proofs.FnDefs3
+import EvalFilter.Proofs.FnDefs4
 
 namespace EvalFilter.Props.C06
 open EvalFilter EvalFilter.VM
@@ -178,8 +179,8 @@ open EvalFilter.Exec EvalFilter.Compiler
 
 /-- **Scripts that define and call their own functions run as the language defines.**  For every script
     (assignments, compound assignments, `local`, if / else, while, foreach, switch, return over
-    value-producing expressions) whose function definitions are at top level - bodies of any size, calling each other and
-    themselves, before or after their definition - with calls in the positions `x = f(a, …);`, `f(a, …);`,
+    value-producing expressions), its function definitions wherever they stand - bodies of any size, calling each other and
+    themselves, before or after their definition - with calls of them in the positions `x = f(a, …);`, `f(a, …);`,
     `return f(a, …);`: the compiled program's run ends with exactly the outcome of the big-step semantics
     `execSs` over the script's own function table.  In that semantics (`callWith`) a call evaluates its
     arguments left to right; a built-in or host function of the name wins; otherwise the LAST definition of
@@ -187,25 +188,25 @@ open EvalFilter.Exec EvalFilter.Compiler
     `maxCallDepth` open calls are errors; the body runs in a fresh scope holding the parameters; `return`
     gives its value, falling off the end gives none; and however the body ends (from inside loops, too) the
     scopes it opened are closed. -/
-theorem C06_functions_end_to_end (prog : Program) (hp : pureSs prog = true) (hn : topNd prog = true)
+theorem C06_functions_end_to_end (prog : Program) (hp : pureSs prog = true)
     (hne : 1 ≤ Stmt.sizes prog) (c : Compiled)
     (hc : compileProgram prog = .ok c) (fns : List (Str × FnImpl)) (obj : HostVal) (env : Env) (out : Str)
     (polls depth f : Nat)
-    (hnd : execSs (Api.newMachine c false fns (fun _ => false)) (defsOf prog) obj depth f prog env out ≠ .diverged) :
+    (hnd : execSs (Api.newMachine c false fns (fun _ => false)) (allDefs prog) obj depth f prog env out ≠ .diverged) :
     ∃ n k, ∀ fuel, ∃ st',
       run (Api.newMachine c false fns (fun _ => false)) obj (fuel + n) ⟨env, out, polls, depth⟩ = st' ∧
-      (match programResult (polls + k) depth (execSs (Api.newMachine c false fns (fun _ => false)) (defsOf prog) obj depth f prog env out) with
+      (match programResult (polls + k) depth (execSs (Api.newMachine c false fns (fun _ => false)) (allDefs prog) obj depth f prog env out) with
        | some (r, s) => st'.1 = r ∧ st'.2.out = s.out ∧ st'.2.env.globals = s.env.globals ∧ st'.2.polls = s.polls
        | none => True) :=
-  program_correct (defsOf prog) prog hp hne c hc fns obj env out polls depth f
-    (fnOK_of_compile prog hp hn c hc fns obj) hnd
+  program_correct (allDefs prog) prog hp hne c hc fns obj env out polls depth f
+    (fnOK_of_compile_all prog hp c hc fns obj) hnd
 
 /-- the machine's function table is the script's: every name the script defines is bound to the code of
     its last definition, no other name is bound -/
-theorem C06_function_table (prog : Program) (hp : pureSs prog = true) (hn : topNd prog = true) (c : Compiled)
+theorem C06_function_table (prog : Program) (hp : pureSs prog = true) (c : Compiled)
     (hc : compileProgram prog = .ok c) (fns : List (Str × FnImpl)) (obj : HostVal) :
-    FnOK (Api.newMachine c false fns (fun _ => false)) (defsOf prog) obj :=
-  fnOK_of_compile prog hp hn c hc fns obj
+    FnOK (Api.newMachine c false fns (fun _ => false)) (allDefs prog) obj :=
+  fnOK_of_compile_all prog hp c hc fns obj
 
 /-- in the semantics: a built-in or host function wins over a user-defined one of the same name - the
     script's own table is not even consulted -/
@@ -336,7 +337,6 @@ private def progC : Program :=
         (.infix ['*'] (.ident ['g']) (.intLit ['1','0'] 10))) (.ident ['y'])) ]
 private def compC : Compiled := match compileProgram progC with | .ok c => c | .error _ => ⟨[], [], []⟩
 example : pureSs progC = true := by decide
-example : topNd progC = true := by decide
 example : 1 ≤ Stmt.sizes progC := by decide
 example : compileProgram progC = .ok compC := by
   have hok : (match compileProgram progC with | .ok _ => true | .error _ => false) = true := by decide +kernel
@@ -344,8 +344,32 @@ example : compileProgram progC = .ok compC := by
   cases h : compileProgram progC with
   | ok c => rfl
   | error e => rw [h] at hok; cases hok
-example : (match execSs (Api.newMachine compC false [] (fun _ => false)) (defsOf progC) .nilIface 0 20 progC {} [] with
+example : (match execSs (Api.newMachine compC false [] (fun _ => false)) (allDefs progC) .nilIface 0 20 progC {} [] with
     | .returned (.int v) _ _ => v == 7351
+    | _ => false) = true := by decide +kernel
+/-- definitions inside a function and inside a block:
+    `function outer() { function inner(a) { return a * 2; } x = inner(4); return x + 1; }
+     if (true) { function late() { return 5; } } y = outer(); z = late(); return y * 10 + z;` yields 95 -/
+private def progN : Program :=
+  [ .expr (.funcDef ['o','u','t','e','r'] []
+      [ .expr (.funcDef ['i','n','n','e','r'] [['a']] [ .ret (.infix ['*'] (.ident ['a']) (.intLit ['2'] 2)) ]),
+        .expr (.assign ['x'] (.call (.ident ['i','n','n','e','r']) [.intLit ['4'] 4])),
+        .ret (.infix ['+'] (.ident ['x']) (.intLit ['1'] 1)) ]),
+    .expr (.ifE (.boolLit true) [ .expr (.funcDef ['l','a','t','e'] [] [ .ret (.intLit ['5'] 5) ]) ] none),
+    .expr (.assign ['y'] (.call (.ident ['o','u','t','e','r']) [])),
+    .expr (.assign ['z'] (.call (.ident ['l','a','t','e']) [])),
+    .ret (.infix ['+'] (.infix ['*'] (.ident ['y']) (.intLit ['1','0'] 10)) (.ident ['z'])) ]
+private def compN : Compiled := match compileProgram progN with | .ok c => c | .error _ => ⟨[], [], []⟩
+example : pureSs progN = true := by decide
+example : (allDefs progN).map (·.name) = [['i','n','n','e','r'], ['o','u','t','e','r'], ['l','a','t','e']] := by decide
+example : compileProgram progN = .ok compN := by
+  have hok : (match compileProgram progN with | .ok _ => true | .error _ => false) = true := by decide +kernel
+  unfold compN
+  cases h : compileProgram progN with
+  | ok c => rfl
+  | error e => rw [h] at hok; cases hok
+example : (match execSs (Api.newMachine compN false [] (fun _ => false)) (allDefs progN) .nilIface 0 20 progN {} [] with
+    | .returned (.int v) _ _ => v == 95
     | _ => false) = true := by decide +kernel
 end nonvacuous
 
